@@ -101,7 +101,8 @@ fn one<'b>(session: &mut Session<'b, Shared>, input: Input, buf: &Shared, entrie
     let out = buf.0.lock().unwrap()[before..].to_vec();
     match r {
         Ok(Ok(report)) => {
-            entries.push(json!({"kind": "ok", "flags": flags_str(&hr::report_flags(&report)), "out": enc_bytes(&out), "sess": flags_str(&hr::session_flags(session))}));
+            let diag: Vec<Value> = hr::entries(&report).iter().map(|e| json!({"file": e.file, "line": e.line, "kind": e.kind, "found": e.overflow.map(|x| x.0).unwrap_or(0), "max": e.overflow.map(|x| x.1).unwrap_or(0), "c": e.is_comment, "s": e.is_string})).collect();
+            entries.push(json!({"kind": "ok", "flags": flags_str(&hr::report_flags(&report)), "out": enc_bytes(&out), "sess": flags_str(&hr::session_flags(session)), "diag": diag}));
             true
         }
         Ok(Err(e)) => {
